@@ -930,10 +930,14 @@ func (a *typedArrayObject) deleteIdx(idx valueInt, throw bool) bool {
 }
 
 func (a *typedArrayObject) stringKeys(all bool, accum []Value) []Value {
-	if accum == nil {
-		accum = make([]Value, 0, a.length)
+	length := a.length
+	if a.viewedArrayBuf.detached {
+		length = 0
 	}
-	for i := 0; i < a.length; i++ {
+	if accum == nil {
+		accum = make([]Value, 0, length)
+	}
+	for i := 0; i < length; i++ {
 		accum = append(accum, asciiString(strconv.Itoa(i)))
 	}
 	return a.baseObject.stringKeys(all, accum)
@@ -945,7 +949,7 @@ type typedArrayPropIter struct {
 }
 
 func (i *typedArrayPropIter) next() (propIterItem, iterNextFunc) {
-	if i.idx < i.a.length {
+	if i.idx < i.a.length && !i.a.viewedArrayBuf.detached {
 		name := strconv.Itoa(i.idx)
 		prop := i.a._getIdx(i.idx)
 		i.idx++
